@@ -249,6 +249,108 @@ def r_history(ctx):
            sig="create_unique keys %s, then (after deleting the last) %s" % (handed, fresh))
 
 
+def r_histories(ctx):
+    """Every sequence of steps over a small alphabet (updates adding a child / a three-level chain / an unnamed feature,
+    deletes of an inner feature / of two features / of the feature added last, add_relation, close-and-reopen) up to a depth
+    bound, each evaluated on a fresh model database and compared after every step with a reference model."""
+    import copy
+    import itertools
+    from . import scen
+    fu = require_func(ctx, "interface.FeatureDB.update")
+    base = scen.gff_lines()
+    depth = 3 if ctx.tier == "thorough" else 2
+    ops = ["update:child", "update:chain", "update:unnamed", "delete:t1", "delete:e2+g1", "delete:last", "add_relation", "reopen"]
+    im0, _t = scen.run_create(ctx, "_GFFDBCreator", [scen.feature(f.name, f.attrs["featuretype"], f.attrs["start"], f.attrs["end"], f.attrs["attributes"], strand=f.attrs["strand"])
+                                                      for f in base], directives=["gff-version 3"])
+    ids0 = [r[0] for r in im0.db.rows("features", ["id"])]
+    rel0 = set(im0.db.rows("relations"))
+    bad = None
+    n_hist = n_steps = 0
+    for hist in itertools.product(ops, repeat=depth):
+        if bad is not None:
+            break
+        n_hist += 1
+        db = copy.deepcopy(im0.db)
+        it, me, conn, t_open = scen.open_feature_db(ctx, db)
+        feats = list(ids0)
+        lo = set(rel0)             # rows that must be there
+        hi = set(rel0)             # rows that may be there
+        handed = {i for i in ids0}
+        last = None
+        serial = 0
+
+        def call(qual, **args):
+            return scen.call_method(ctx, it, me, qual, **args)
+
+        def closure(l1):
+            return {(a, c, 2) for a, b, _l in l1 for b2, c, _l2 in l1 if b2 == b}
+        for k, op in enumerate(hist):
+            n_steps += 1
+            serial += 1
+            label = "history %s, step %d" % (" -> ".join(hist), k + 1)
+            if op.startswith("update"):
+                if op == "update:child":
+                    new = [scen.feature("N", "exon", 460, 480, {"ID": ["n%d" % serial], "Parent": ["t1"]})]
+                elif op == "update:chain":
+                    new = [scen.feature("X1", "gene", 5000, 6000, {"ID": ["x%d" % serial]}), scen.feature("X2", "mRNA", 5000, 6000, {"ID": ["y%d" % serial], "Parent": ["x%d" % serial]}),
+                           scen.feature("X3", "exon", 5000, 5100, {"ID": ["z%d" % serial], "Parent": ["y%d" % serial, "t2"]})]
+                else:
+                    new = [scen.feature("R", "region", 5, 6, {"Note": ["unnamed"]}, strand=".")]
+                t = call("interface.FeatureDB.update", data=list(new), make_backup=False)
+                if t.result[0] != "return":
+                    bad = "%s: update raises %s" % (label, t.result[1:3])
+                    break
+                nid = [f.attrs["id"] for f in new]
+                if op == "update:unnamed" and (nid[0] in handed or not str(nid[0]).startswith("region_")):
+                    bad = "%s: the unnamed feature is stored under %r, keys handed out so far: %s" % (label, nid[0], sorted(x for x in handed if str(x).startswith("region")))
+                    break
+                handed |= set(nid)
+                feats += nid
+                last = nid[-1]
+                new1 = {(p_, i_, 1) for f, i_ in zip(new, nid) for p_ in f.attrs["attributes"].get("Parent", [])}
+                l1_lo = {r for r in lo if r[2] == 1} | new1
+                l1_hi = {r for r in hi if r[2] == 1} | new1
+                lo |= new1 | {r for r in closure(l1_lo) if any((r[0], b, 1) in new1 or (b, r[1], 1) in new1 for b in {x[1] for x in l1_lo})}
+                hi |= new1 | closure(l1_hi)
+            elif op.startswith("delete"):
+                gone = {"delete:t1": ["t1"], "delete:e2+g1": ["e2", "g1"], "delete:last": [last] if last else []}[op]
+                if not gone:
+                    continue
+                t = call("interface.FeatureDB.delete", features=gone if len(gone) > 1 else gone[0], make_backup=False)
+                if t.result[0] != "return":
+                    bad = "%s: delete raises %s" % (label, t.result[1:3])
+                    break
+                feats = [f for f in feats if f not in gone]
+                lo = {r for r in lo if r[0] not in gone and r[1] not in gone}
+                hi = {r for r in hi if r[0] not in gone and r[1] not in gone}
+            elif op == "add_relation":
+                if "g1" not in feats or "o1" not in feats or ("g1", "o1", 1) in hi:
+                    continue
+                t = call("interface.FeatureDB.add_relation", parent="g1", child="o1", level=1)
+                if t.result[0] != "return":
+                    bad = "%s: add_relation raises %s" % (label, t.result[1:3])
+                    break
+                lo.add(("g1", "o1", 1))
+                hi.add(("g1", "o1", 1))
+            else:
+                it, me, conn, t_open = scen.open_feature_db(ctx, db)
+                if t_open.result[0] != "return":
+                    bad = "%s: reopening raises %s" % (label, t_open.result[1:3])
+                    break
+            gf = [r[0] for r in db.rows("features", ["id"])]
+            gr = db.rows("relations")
+            if sorted(map(str, gf)) != sorted(map(str, feats)):
+                bad = "%s: features +%s -%s" % (label, sorted(set(map(str, gf)) - set(map(str, feats)))[:3], sorted(set(map(str, feats)) - set(map(str, gf)))[:3])
+            elif not (lo <= set(gr) <= hi) or len(gr) != len(set(gr)):
+                bad = "%s: relations missing %s, unexpected %s" % (label, sorted(lo - set(gr))[:3], sorted(set(gr) - hi)[:3])
+            if bad:
+                break
+    ctx.ob("R5", bad is None, "every history of %d steps over {update with a child / a chain / an unnamed feature, delete an inner feature / two features / the last one added, "
+           "add_relation, reopen} leaves exactly the modelled features and relations after every step, and automatic keys never repeat (%d histories, %d steps)" % (depth, n_hist, n_steps),
+           func=fu, sig="all histories to depth %d agree with the reference model" % depth if bad is None else bad[:500])
+    ctx.extra["histories"] = n_hist
+
+
 def check(ctx):
     ctx.explanation = (
         "FeatureDB.update/delete/add_relation and the importer's constructor are evaluated abstractly (no execution) into event traces: the "
@@ -256,7 +358,8 @@ def check(ctx):
         "delete's statements and their bound values per element; the live counter object, dbfn, dialect and the built iterator reach the "
         "importer; populate -> relations -> finalize; an empty source returns before any write; counters are written back with INSERT OR "
         "REPLACE and reloaded on open (parsed SQL + provenance). R5 re-uses C02's importer scenarios (relations after a first and a second import into the same model database). "
-        "Does not decide equality with a reference model over histories.")
+        "One long history and every history of two (thorough: three) steps over an eight-step alphabet are evaluated on the model database and compared with a reference model after every step. "
+        "Does not decide histories beyond that depth or alphabet, nor the '.bak' content after a failure part-way.")
     eff = Effects(ctx)
     sch = schema(ctx)
     r1(ctx, eff)
@@ -267,3 +370,4 @@ def check(ctx):
     for o in ctx.obs[n0:]:
         o.rule = "C10.R5"
     r6(ctx, sch)
+    ctx.attempt(r_histories)
